@@ -1129,6 +1129,11 @@ def crash_violation(ck, rec, c):
         kind = 'misaligned-' + kind.split(' ')[0]
     kind = re.sub(r'0x[0-9a-fA-F]+|NxN[0-9a-fN]*', 'ADDR', kind)
     fn = next((f[0] for f in cr.frames if f[1]), cr.frames[0][0] if cr.frames else '?')
+    if cr.tool == 'ubsan':
+        # UBSan prints file:line of the faulting expression itself (no symbolizer needed, which can fail on a loaded
+        # machine): use the source file, not the function, so that the key does not depend on symbolization
+        m = re.search(r'([A-Za-z0-9_]+\.(?:cpp|hpp|c|h)):\d+:\d+: runtime error', cr.text)
+        fn = m.group(1) if m else fn
     ck.violation('%s:%s:%s:%s' % (cr.tool, kind.strip().replace(' ', '-')[:50], fn, ctx), 'sanitizer/crash report in %s' % fn, {'case': c.to_json(), 'report': cr.text[:5000]})
 
 
